@@ -515,7 +515,7 @@ func floats(v *TVal) ([]float64, bool) {
 
 func r08_6(c *Ctx, r *Report) {
 	const rule = "R08.6"
-	r.rule(rule, "Ephemeris table shape. The per-lunation / per-term correction strings SB and QB (constant-folded through decode) contain only the digits 0,1,2 and are long enough for every index reachable in the low-precision regime [f2, f3); SHUO_KB and QI_KB have odd length with increasing breakpoints so that the sentinel-guarded scans stop inside the table; DT_AT, NUT_B, XL0, XL1 have the stride structure their loops assume.")
+	r.rule(rule, "Ephemeris table shape. The per-lunation / per-term correction strings SB and QB (constant-folded through decode) contain only the digits 0,1,2 and are long enough for every index reachable in the low-precision regime [f2, f3); SHUO_KB and QI_KB have odd length with increasing breakpoints so that the sentinel-guarded scans stop inside the table; DT_AT, NUT_B, XL0, XL1 have the stride structure their loops assume, and the cubic pieces of DT_AT join continuously (within 15 s).")
 	pkg := "ShouXingUtil"
 	kbCheck := func(name string) []float64 {
 		v := c.tab(r, rule, pkg, name)
@@ -584,6 +584,24 @@ func r08_6(c *Ctx, r *Report) {
 			}
 		}
 		r.check(ok && len(xs)%5 == 2 && inc, rule, pkg+".DT_AT shape", c.pos(v.Pos), fmt.Sprintf("length %d (must be 5k+2: rows of year,a,b,c,d and a final year,value), years increasing: %v", len(xs), inc))
+		// the rows are cubic pieces of one continuous curve (delta-T in seconds): the value a row reaches at its
+		// end (a + 10b + 100c + 1000d, the argument running 0..10 over the row) meets the next row's a
+		if ok && len(xs)%5 == 2 {
+			var jumps []string
+			worst := 0.0
+			for i := 0; i+6 < len(xs); i += 5 {
+				end := xs[i+1] + 10*xs[i+2] + 100*xs[i+3] + 1000*xs[i+4]
+				next := xs[i+6]
+				d := math.Abs(end - next)
+				if d > worst {
+					worst = d
+				}
+				if d > 15 {
+					jumps = append(jumps, fmt.Sprintf("row starting %g ends at %.1f s, the next starts at %.1f s", xs[i], end, next))
+				}
+			}
+			r.check(len(jumps) == 0, rule, pkg+".DT_AT pieces join continuously", c.pos(v.Pos), fmt.Sprintf("largest jump between consecutive pieces %.1f s (at most 15 s admitted); %v", worst, jumps))
+		}
 	}
 	if v := c.tab(r, rule, pkg, "NUT_B"); v != nil {
 		xs, ok := floats(v)
